@@ -171,6 +171,18 @@ func c15model(c *Ctx, ruleCount, ruleType, ruleShape string) {
 		add(fmt.Sprintf("self-touching ring rotated by %d", rot), poly(pinch(0, 0)), poly(pinch(1, rot)), true)
 		add(fmt.Sprintf("self-touching ring rotated by %d (other start)", rot), poly(pinch(0, 1)), poly(pinch(1, (rot+1)%6)), true)
 	}
+	// a ring with one vertex more (a closed pentagon over the same first four vertices) or one fewer
+	penta := func(d int64, base int) []vtx {
+		v := []vtx{{base, d}, {base + 1, d}, {base + 2, d}, {base + 3, d}, {base + 4, d}}
+		return append(v, v[0])
+	}
+	tri := func(d int64, base int) []vtx {
+		v := []vtx{{base, d}, {base + 1, d}, {base + 2, d}}
+		return append(v, v[0])
+	}
+	add("ring vertex added", poly(sq(0, 1, 0), sq(0, 10, 0)), poly(penta(1, 1), sq(1, 10, 0)), false)
+	add("ring vertex removed", poly(sq(0, 1, 0), sq(0, 10, 0)), poly(tri(1, 1), sq(1, 10, 0)), false)
+	add("vertex added in the last ring", poly(sq(0, 1, 0), sq(0, 10, 0)), poly(sq(1, 1, 0), penta(1, 10)), false)
 	add("ring added", poly(sq(0, 1, 0)), poly(sq(1, 1, 0), sq(1, 10, 0)), false)
 	add("ring removed", poly(sq(0, 1, 0), sq(0, 10, 0)), poly(sq(1, 10, 0)), false)
 	add("duplicate ring against a different one", poly(sq(0, 1, 0), sq(0, 10, 0), sq(0, 1, 0)), poly(sq(1, 20, 0), sq(1, 10, 0), sq(1, 1, 0)), false)
@@ -187,6 +199,8 @@ func c15model(c *Ctx, ruleCount, ruleType, ruleShape string) {
 	P := func(d int64, base int) [][]vtx { return [][]vtx{sq(d, base, 0)} }
 	add("perturbed", mpoly(P(0, 1), P(0, 10)), mpoly(P(1, 1), P(1, 10)), true)
 	add("members reordered", mpoly(P(0, 1), P(0, 10), P(0, 20)), mpoly(P(1, 20), P(1, 1), P(1, 10)), true)
+	add("vertex added in a member's ring", mpoly(P(0, 1), P(0, 10)), mpoly([][]vtx{penta(1, 1)}, P(1, 10)), false)
+	add("vertex removed from a member's ring", mpoly(P(0, 1), P(0, 10)), mpoly(P(1, 1), [][]vtx{tri(1, 10)}), false)
 	add("member added", mpoly(P(0, 1)), mpoly(P(1, 1), P(1, 10)), false)
 	add("member removed", mpoly(P(0, 1), P(0, 10)), mpoly(P(1, 10)), false)
 	add("duplicate member against a different one", mpoly(P(0, 1), P(0, 10), P(0, 1)), mpoly(P(1, 20), P(1, 10), P(1, 1)), false)
